@@ -1,1 +1,5 @@
 import Preflate.Props.C05
+#print axioms Preflate.parse_no_panic
+#print axioms Preflate.parse_no_fuel
+#print axioms Preflate.encStream_no_panic
+#print axioms Preflate.verify_path_ok
